@@ -51,6 +51,10 @@ pub struct ImportGraph {
     /// every import statement sits inside `try: … except ImportError: pass`
     #[serde(default)]
     pub guarded: bool,
+    /// a package `m1/` (with an __init__.py defining `f1` and `shared`) exists beside the module m1.py:
+    /// `import m1` means the package
+    #[serde(default)]
+    pub package_beside_module: bool,
 }
 
 fn module_name(src: usize, dst: usize, relative: bool, stdlib_like: bool) -> String {
@@ -118,6 +122,9 @@ impl ImportGraph {
             }
         }
         files.push(FileSpec::new("test_x.py", test_items));
+        if self.package_beside_module {
+            files.push(FileSpec::new("m1/__init__.py", vec![Item::fixture("f1", &[]), Item::fixture("shared", &[])]));
+        }
         if self.guarded {
             for f in files.iter_mut() {
                 f.guarded_imports = true;
@@ -133,10 +140,10 @@ fn enumerate_graphs(max_edges: usize) -> Vec<ImportGraph> {
     let mut out = Vec::new();
     fn rec(slots: &[(usize, usize)], kinds: &[Kind], start: usize, cur: &mut Vec<(usize, usize, Kind)>, max: usize, out: &mut Vec<ImportGraph>) {
         for relative in [false, true] {
-            out.push(ImportGraph { edges: cur.clone(), relative, stdlib_like_names: false, guarded: false });
+            out.push(ImportGraph { edges: cur.clone(), relative, stdlib_like_names: false, guarded: false, package_beside_module: false });
         }
         if !cur.is_empty() && cur.iter().all(|e| !matches!(e.2, Kind::Plugins | Kind::PluginsOverwritten)) {
-            out.push(ImportGraph { edges: cur.clone(), relative: true, stdlib_like_names: true, guarded: false });
+            out.push(ImportGraph { edges: cur.clone(), relative: true, stdlib_like_names: true, guarded: false, package_beside_module: false });
         }
         if cur.len() == max {
             return;
@@ -157,6 +164,12 @@ fn enumerate_graphs(max_edges: usize) -> Vec<ImportGraph> {
         g.guarded = true;
         out.push(g);
     }
+    // graphs with an edge to m1 once more with a package m1/ beside the module m1.py
+    let clash: Vec<ImportGraph> = out.iter().filter(|g| !g.stdlib_like_names && !g.guarded && g.edges.len() < max_edges && g.edges.iter().any(|e| e.1 == 1)).cloned().collect();
+    for mut g in clash {
+        g.package_beside_module = true;
+        out.push(g);
+    }
     // the test module imports from a helper itself (one such edge, every kind of import statement),
     // on top of every graph with up to max_edges - 1 other edges
     let base: Vec<ImportGraph> = out.iter().filter(|g| g.edges.len() < max_edges && !g.stdlib_like_names).cloned().collect();
@@ -165,7 +178,7 @@ fn enumerate_graphs(max_edges: usize) -> Vec<ImportGraph> {
             for k in [Kind::Star, Kind::Explicit, Kind::ExplicitAll] {
                 let mut e = g.edges.clone();
                 e.push((4, d, k));
-                out.push(ImportGraph { edges: e, relative: g.relative, stdlib_like_names: false, guarded: false });
+                out.push(ImportGraph { edges: e, relative: g.relative, stdlib_like_names: false, guarded: false, package_beside_module: false });
             }
         }
     }
@@ -185,7 +198,7 @@ fn check_graph(rep: &Report, g: &ImportGraph, scans: &AtomicU64) {
     let tpath = ws.path_in(&root, test);
     let case = || json!({"graph": g, "files": ws.files.iter().enumerate().map(|(i, f)| json!({"path": f.rel, "text": r.texts[i]})).collect::<Vec<_>>()});
     let kinds: BTreeSet<String> = g.edges.iter().map(|e| format!("{:?}", e.2)).collect();
-    let ctx = format!("edge kinds {:?}, {} spelling{}", kinds, if g.relative { "relative" } else { "absolute" }, if g.stdlib_like_names { ", modules named like standard-library modules" } else if g.guarded { ", imports inside try / except ImportError" } else { "" });
+    let ctx = format!("edge kinds {:?}, {} spelling{}", kinds, if g.relative { "relative" } else { "absolute" }, if g.stdlib_like_names { ", modules named like standard-library modules" } else if g.guarded { ", imports inside try / except ImportError" } else if g.package_beside_module { ", package m1/ beside module m1.py" } else { "" });
     // resolver walk: go-to-definition of each name from the test file
     let mut visible_model: BTreeSet<String> = BTreeSet::new();
     for u in r.usages.iter().filter(|u| u.file == test) {
@@ -223,6 +236,11 @@ fn check_graph(rep: &Report, g: &ImportGraph, scans: &AtomicU64) {
     loop {
         let mut grew = false;
         for (s, d, _k) in &g.edges {
+            // with a package m1/ beside m1.py an import of m1 means the package (no onward imports): the
+            // module m1.py and what only it imports are not reached
+            if g.package_beside_module && *d == 1 {
+                continue;
+            }
             if reach.contains(s) && !reach.contains(d) {
                 reach.insert(*d);
                 grew = true;
@@ -232,7 +250,7 @@ fn check_graph(rep: &Report, g: &ImportGraph, scans: &AtomicU64) {
             break;
         }
     }
-    for n in 1..4 {
+    for n in (if g.package_beside_module { 2 } else { 1 })..4 {
         let analysed = db.file_definitions.contains_key(&sc.path().join(nodes(g.stdlib_like_names)[n]));
         if reach.contains(&n) != analysed {
             let fp = format!("imports: module {} by the scan [{}]", if analysed { "analysed although nothing imports it" } else { "reachable through imports but not analysed" }, ctx);
@@ -245,7 +263,7 @@ fn check_graph(rep: &Report, g: &ImportGraph, scans: &AtomicU64) {
     for e in db.definitions.iter() {
         for d in e.value() {
             let want_file = FX.iter().position(|f| *f == d.name).map(|i| nodes(g.stdlib_like_names)[i]).unwrap_or(if d.name == "decoy_fx" { "decoy_mod.py" } else { "?" });
-            if d.name == "shared" {
+            if d.name == "shared" || (g.package_beside_module && d.name == "f1") {
                 continue;
             }
             if rel(&d.file_path, &root) != want_file {
